@@ -35,7 +35,7 @@ static std::vector<size_t> parse_braced(const std::string& s, size_t from, size_
             break;
         }
         char* e = nullptr;
-        unsigned long long x = strtoull(tok.c_str() + i, &e, 10);
+        unsigned long long x = strtoull(tok.c_str() + i, &e, 0); // any C++ integer literal: 16, 0x10
         while (*e == ' ')
             ++e;
         if (*e) {
@@ -105,9 +105,16 @@ int prop_offsets(Run& run) {
         Rng rng(run.seed, (uint64_t)cs);
         IWorld* w = ws[(size_t)((cs + run.seed) % ws.size())];
         Registry r;
-        gen_graph(rng, prof, r);
+        GenProfile pcase = prof;
+        if (rng.chance(1, 6)) { // many methods on few classes: slot numbers of two digits
+            pcase.max_classes = 8;
+            pcase.max_methods = 28;
+            pcase.max_defs = 2;
+            run.count("registries-with-many-methods");
+        }
+        gen_graph(rng, pcase, r);
         Oracle o(r);
-        gen_methods(rng, prof, r, o);
+        gen_methods(rng, pcase, r, o);
         // half of the methods use the static-offsets instance (one per shape)
         std::set<int> used2;
         for (auto& me : r.methods)
@@ -118,7 +125,10 @@ int prop_offsets(Run& run) {
                 me.inst = 2;
                 used2.insert(me.shape);
             }
-        assign_ids(rng, r, pick_flavour(rng, w->caps()), 1);
+        // (a third of the cases: the offsets are written after encode_dispatch_data on the same
+        // stream; the encoder demangles class ids, so these cases need real type_info pointers)
+        bool want_after_encode = rng.chance(1, 3) && !w->caps().small_ids && !w->caps().projection;
+        assign_ids(rng, r, want_after_encode ? 1 : pick_flavour(rng, w->caps()), 1);
         gen_presentation(rng, r, o, (int)rng.below(NPRES));
         r.static_class[0] = (int)rng.below(r.n);
         r.static_class[1] = (int)rng.below(r.n);
@@ -131,7 +141,12 @@ int prop_offsets(Run& run) {
         if (!do_update(c, u, "C12"))
             continue;
         set_stage("write_static_offsets");
-        std::string text = w->write_static_offsets();
+        // (after encode_dispatch_data, on the same stream, the offsets come out in whatever number
+        // format the encoder left behind, and must still be right)
+        bool after_encode = u.compiler && want_after_encode;
+        std::string text = after_encode ? w->write_static_offsets_after_encode(*u.compiler) : w->write_static_offsets();
+        if (after_encode)
+            run.count("offsets-written-after-encode-on-the-same-stream");
         set_stage("monitor");
         auto lines = parse_offsets(text);
         auto fail = [&](const std::string& key, const std::string& what, const std::string& e, const std::string& ob) {
